@@ -272,3 +272,52 @@ func optionLoops(rel, fn string) []string {
 	}
 	return out
 }
+
+// paramNames: the parameter names of a function, in order.
+func paramNames(rel, fn string) []string {
+	fd := funcDecl(rel, fn)
+	if fd == nil {
+		die("function %s not found in %s (parameters)", fn, rel)
+	}
+	var out []string
+	for _, f := range fd.Type.Params.List {
+		for _, n := range f.Names {
+			out = append(out, n.Name)
+		}
+	}
+	return out
+}
+
+// callArgs: the argument texts of the one call of method `callee` inside function fn.
+func callArgs(rel, fn, callee string) []string {
+	fd := funcDecl(rel, fn)
+	if fd == nil || fd.Body == nil {
+		die("function %s not found in %s (call arguments)", fn, rel)
+	}
+	t := &decTr{g: load(rel)}
+	var found [][]string
+	ast.Inspect(fd.Body, func(n ast.Node) bool {
+		if c, ok := n.(*ast.CallExpr); ok {
+			if sel, ok := c.Fun.(*ast.SelectorExpr); ok && sel.Sel.Name == callee {
+				var as []string
+				for _, a := range c.Args {
+					as = append(as, t.render(a))
+				}
+				found = append(found, as)
+			}
+		}
+		return true
+	})
+	if len(found) != 1 {
+		die("%s %s: %d calls of %s, expected one", rel, fn, len(found), callee)
+	}
+	return found[0]
+}
+
+func coqStrList(l []string) string {
+	var qs []string
+	for _, x := range l {
+		qs = append(qs, q(x))
+	}
+	return "[" + strings.Join(qs, "; ") + "]"
+}
